@@ -62,6 +62,9 @@ POOL_CANDIDATES = [
     ("INC A", "plain"), ("DEC I", "plain"), ("INC X", "plain"), ("PUSHU A", "plain"), ("POPU BA", "plain"),
     ("PUSHS F", "plain"), ("POPS F", "plain"), ("PUSHU IMR", "plain"), ("EX A, B", "plain"), ("SWAP A", "plain"),
     ("MV A, [X]", "plain"), ("MV [Y++], A", "plain"), ("MV A, [--U]", "plain"), ("MV BA, [X+{v8}]", "imm"),
+    ("MV A, [X+{v8}]", "imm"), ("MV [Y-{v8}], A", "imm"), ("MV A, [(0x10)+{v8}]", "imm"), ("MV [(0x12)-{v8}], A", "imm"),
+    ("MV (0x20), [X+{v8}]", "imm"), ("MV [Y-{v8}], (0x22)", "imm"), ("MVW (0x24), [X+{v8}]", "imm"),
+    ("MVP (0x28), [(0x30)+{v8}]", "imm"), ("MV [(0x32)-{v8}], (0x34)", "imm"),
     ("MV A, B", "plain"), ("MV X, Y", "plain"), ("ADD BA, I", "plain"), ("ROR A", "plain"), ("SHL A", "plain"),
     ("JP {lbl}", "near"), ("JPZ {lbl}", "near"), ("JPNZ {lbl}", "near"), ("JPC {lbl}", "near"), ("JPNC {lbl}", "near"),
     ("CALL {lbl}", "near"), ("JPF {lbl}", "far"), ("CALLF {lbl}", "far"),
@@ -241,6 +244,7 @@ def render(prog, r):
     refs = 0
     xpage = []    # lines with a near reference to another page (must be rejected)
     near20 = []   # lines with a near jump/call given as a 20-bit same-page numeric literal
+    small_refs = []   # lines whose 8-bit slot is a label reference
     for i, (line, a, s) in enumerate(zip(prog["lines"], addrs, sect)):
         st = line.get("stmt")
         lab = (line["label"] + ": ") if "label" in line else ""
@@ -272,6 +276,17 @@ def render(prog, r):
                 if "(" in tm:
                     v = r.randrange(0, 0xD0)
                 slots["v8"] = subst["v8"] = f"0x{v:02X}"
+                # a label whose value fits the byte slot (programs that start at address 0 have such labels): every
+                # symbol reference must encode its definition's value, also in 8-bit immediates and +-n displacements
+                # (not inside (BP+n)/(PX+n)/(PY+n): the assembler's IMEM operand rules take numbers only)
+                small = [l for l in nonbss_labels if label_addr[l] < 0x100]
+                slot_ok = ("+{v8}]" in tm or "-{v8}]" in tm or tm.endswith(", {v8}")) and "P+{v8}" not in tm \
+                    and "PX+{v8}" not in tm and "PY+{v8}" not in tm
+                if small and slot_ok and tm.count("{v8}") == 1 and r.random() < 0.5:
+                    l = r.choice(small)
+                    refs += 1
+                    small_refs.append(i)
+                    slots["v8"], subst["v8"] = l, f"0x{label_addr[l]:02X}"
             if "{v16}" in tm:
                 slots["v16"], subst["v16"] = sym_or_num(16)
                 if not slots["v16"].startswith("0x"):
@@ -339,6 +354,7 @@ def render(prog, r):
             texts.append(f"{lab}defm \"{st['s']}\"")
             expect.append((a, f"defm \"{st['s']}\"", s == "bss"))
     prog["near20"] = near20
+    prog["small_refs"] = small_refs
     return "\n".join(texts) + "\n", expect, label_addr, refs, xpage, sect
 
 
